@@ -311,17 +311,17 @@ def abort_content(case, lines):
             except StopIteration: break
             for o in s.ops:
                 for e in o.ev:
-                    if e.startswith("write_end MK(") and " MapEqualsChecker " in e:
+                    if e.startswith(("write_end MK(", "write_end TR(")) and " MapEqualsChecker " in e:
                         r = e.split(" ")[1][3:-1]; st = e.split(" ")[3]
                         if st == "None": val.pop(r, None)
                         else: val[r] = st[5:-1]
-                if o.result in ("abort hidden", "abort overlap") and o.ev and o.ev[-1].startswith("write_start MK("):
+                if o.result in ("abort hidden", "abort overlap") and o.ev and o.ev[-1].startswith(("write_start MK(", "write_start TR(")):
                     r = o.ev[-1].split(" ")[1][3:-1]
                     fsd = dict(x.split(":") for x in plist(s.fs or "[]"))
                     kind = [ln for ln in case.body if ln.startswith("task ")]
                     # only claimed for Context::write; `wrote` (written_to) has modified already
                     if fsd.get(r) != val.get(r) and not case.meta.get("uses_wrote", True):
-                        fails.append(f"{o.result} while validating a write to MK({r}), but its content changed from {val.get(r)} to {fsd.get(r)}")
+                        fails.append(f"{o.result} while validating a write to resource {r}, but its content changed from {val.get(r)} to {fsd.get(r)}")
             fsd = dict(x.split(":") for x in plist(s.fs or "[]"))
             val = dict(fsd)
     return fails
@@ -525,11 +525,12 @@ def c09(case, lines):
             t = c.split(" ")
             if t[0] in ("stamp_reader", "stamp_writer", "stamp"):
                 res = t[-1]
-                if not res.startswith("error"): from_ck.append(("rstamp", t[1], t[2], res))
+                if not res.startswith("error") and t[1] != "MapEqualsChecker": from_ck.append(("rstamp", t[1], t[2], res))
                 if t[0] == "stamp_reader": last_stamp_reader[t[2]] = t[3]
                 if t[0] in ("stamp_writer", "stamp") and t[2] in last_written and last_written[t[2]] != t[3]:
                     fails.append(f"write stamp of {t[2]} taken on content {t[3]} but the task wrote {last_written[t[2]]} (stamp not taken after the write)")
-            elif t[0] == "rcheck": from_ck.append(("rcheck", t[1], t[4], t[-1]))
+            elif t[0] == "rcheck":
+                if t[1] != "MapEqualsChecker": from_ck.append(("rcheck", t[1], t[4], t[-1]))
             elif t[0] == "ostamp": from_ck.append(("ostamp", t[1], t[-1]))
             elif t[0] == "ocheck": from_ck.append(("ocheck", t[1], t[3], t[-1]))
             elif t[0] == "saw":
